@@ -15,7 +15,8 @@
       a malformed key (wrong length / low-order point) raises ValueError: the circuit is removed;
     * the hop is appended BEFORE the candidate list is decrypted; if that fails the handler aborts with the hop
       appended and the retry cache still in place;
-    * the relay pairs a CREATED with its pending extend by the identifier alone (circuit id and sender are ignored);
+    * the relay pairs a CREATED with its pending extend by the identifier and (since fix cc86df2) the reserved outgoing
+      circuit id; the sender is ignored;
       since fix 172d874 it refuses to pair when the outgoing circuit id it reserved is meanwhile in use at this node.
 -/
 import Ipv8.C08.GenCrypto
@@ -219,17 +220,26 @@ def originAnswer [DecidableEq Tag] (C : Crypto Tag Sess Blob) (n : Node Sess) (c
     | some r =>
       if r.ident = ident then n.setCirc cid (ours C n.me cid c key auth cands env) else (n, [])
 
+/-- the pending extend a CREATED completes: the CreateRequestCache with that number, and (since fix cc86df2) only if
+    the CREATED names the outgoing circuit id reserved by that request; otherwise the cache is left alone -/
+def pairing? (n : Node Sess) (cid ident : Nat) : Option CreateReq :=
+  match n.creates ident with
+  | some req => if req.toCid = cid then some req else none
+  | none => none
+
 /-- on_created -/
 def onCreated [DecidableEq Tag] (C : Crypto Tag Sess Blob) (n : Node Sess) (cid ident : Nat)
     (key : Option Wire) (auth : Tag) (cands : Blob) (env : Env) : Node Sess × List (Out Tag Blob) :=
-  match n.creates ident with
+  match pairing? n cid ident with
   | some req =>
     let n1 : Node Sess := { n with creates := upd n.creates ident none }
     match n1.exits req.fromCid with
     | none => (n1, [])
     | some ex =>
+      -- the exit socket must still belong to the peer the extend came from (C05 fix: id handed to another peer)
+      if ex.peer != req.peer then (n1, [])
       -- the id reserved for the next hop was taken in the meantime (it travels in a plaintext CREATE): do not pair
-      if (n1.circuits req.toCid).isSome || (n1.relays req.toCid).isSome || (n1.exits req.toCid).isSome then (n1, [])
+      else if (n1.circuits req.toCid).isSome || (n1.relays req.toCid).isSome || (n1.exits req.toCid).isSome then (n1, [])
       else
       ({ n1 with exits := upd n1.exits req.fromCid none,
                  relays := upd (upd n1.relays req.toCid (some ⟨req.fromCid, req.peer, ex.keys, false⟩))
